@@ -4,7 +4,7 @@ from .c02 import attrs
 
 PROP = 'C01'
 PREDICATE = 'C01'
-LEAN_TARGETS = ['LLTD.Props.C01']
+LEAN_TARGETS = ['LLTD.Props.C01', 'LLTD.Props.C01T']
 VARIANT = 'san'
 RULE = ('receive buffer is malloc(MTU) exactly, frames of length 0..MTU copied to its start, tail kept (stale bytes) or zeroed; every opcode x '
         'ToS in {0,1,2,random}; wire counters (Emit numDescs, Discover stationNumber, QueryLargeTlv offset) at 0, 1, the largest that fits, one '
